@@ -236,3 +236,72 @@ func (c *Ctx) runOverrideConverted(r *Report, rule string) {
 	}
 	r.inst("override.converted", n)
 }
+
+// override.literalkind (C14): OverrideInitLiteral carries the numeric default of
+// an override as a float64 whatever the override's declared type. A function
+// that turns it into an IR literal must choose the literal's kind from that
+// type (it needs a scalar kind / type in scope); an arm that always builds
+// ir.LiteralF32 makes `override c: i32 = 7` the float 7.0 (rounded to 24 bits for
+// large values), and everything computed from it float arithmetic: c % 4 is
+// emitted as fmod(7.0, 4).
+func (c *Ctx) runOverrideLiteralKind(r *Report, rule string) {
+	n := 0
+	for _, fn := range c.allFuncs() {
+		if !inPkgs("wgsl", "ir")(fn.Pkg.Rel) {
+			continue
+		}
+		info := fn.Pkg.Info
+		ast.Inspect(fn.Decl.Body, func(m ast.Node) bool {
+			cc, ok := m.(*ast.CaseClause)
+			if !ok || len(cc.List) != 1 {
+				return true
+			}
+			if irTypeName(info.TypeOf(cc.List[0])) != "OverrideInitLiteral" {
+				return true
+			}
+			// does the arm build an ir.Literal?
+			buildsF32, buildsOther := false, false
+			ast.Inspect(cc, func(k ast.Node) bool {
+				if call, ok := k.(*ast.CallExpr); ok {
+					if tv, ok := info.Types[call.Fun]; ok && tv.IsType() {
+						switch irTypeName(tv.Type) {
+						case "LiteralF32":
+							buildsF32 = true
+						case "LiteralI32", "LiteralU32", "LiteralF16", "LiteralF64", "LiteralI64", "LiteralU64":
+							buildsOther = true
+						}
+					}
+				}
+				return true
+			})
+			if !buildsF32 && !buildsOther {
+				return true
+			}
+			n++
+			cons := fn.id() + ":OverrideInitLiteral"
+			// a scalar kind / type visible in the arm?
+			typed := buildsOther
+			ast.Inspect(cc, func(k ast.Node) bool {
+				if id, ok := k.(*ast.Ident); ok {
+					if o := info.Uses[id]; o != nil {
+						switch irTypeName(o.Type()) {
+						case "ScalarKind", "ScalarType", "TypeHandle":
+							typed = true
+						}
+					}
+				}
+				if se, ok := k.(*ast.SelectorExpr); ok && (se.Sel.Name == "Kind" || se.Sel.Name == "Ty") {
+					typed = true
+				}
+				return true
+			})
+			if typed {
+				r.ok(rule, cons, c.pos(cc.Pos()), "")
+			} else {
+				r.viol(rule, cons, c.pos(cc.Pos()), fn.id()+" turns the numeric default of an override into ir.LiteralF32 without looking at the override's type: integer overrides get float defaults (override c: i32 = 7 -> 7.0; 2147483647 -> 2147483600.0) and expressions over them are emitted as float arithmetic")
+			}
+			return true
+		})
+	}
+	r.inst("override.literalkind", n)
+}
